@@ -101,6 +101,24 @@ func c05Case(c *runCtx, ps []c05Principal, threshold int, exhaustive bool, gitMo
 		pidOf[p.obj.ID()] = p.pid
 	}
 	v := policy.VerifNewSignatureVerifier(m, "rule", objs, threshold, exhaustive)
+	// signatures made over other content: in half of the cases that content's own envelope is verified first,
+	// in the same process (earlier history is verified before later history in a real run)
+	primed := false
+	if hasEnv && c.rng.Intn(2) == 0 {
+		otherEnv := &sslibdsse.Envelope{PayloadType: "application/vnd.gittuf+json", Payload: base64.StdEncoding.EncodeToString([]byte(`{"verif":"another payload"}`)), Signatures: []sslibdsse.Signature{}}
+		for i, s := range env {
+			if !s.valid && s.signer != 0 {
+				otherEnv.Signatures = append(otherEnv.Signatures, envelope.Signatures[i])
+			}
+		}
+		if len(otherEnv.Signatures) > 0 {
+			func() {
+				defer func() { _ = recover() }()
+				_, _ = v.Verify(context.Background(), githash.ZeroHash, otherEnv)
+			}()
+			primed = true
+		}
+	}
 	var obsTerm, obsH string
 	func() {
 		defer func() {
@@ -155,7 +173,7 @@ func c05Case(c *runCtx, ps []c05Principal, threshold int, exhaustive bool, gitMo
 	}
 	c.add(term, sideCase{Class: class, Nontrivial: nsig >= 2 || shared, Key: keyOf(term),
 		Human: map[string]interface{}{"principals": strings.Join(hp, " "), "threshold": threshold, "exhaustive": exhaustive,
-			"git": fmt.Sprintf("%s key=%d", gitMode, gitKey), "envelope": hs, "has_envelope": hasEnv, "observed": obsH}})
+			"git": fmt.Sprintf("%s key=%d", gitMode, gitKey), "envelope": hs, "has_envelope": hasEnv, "observed": obsH, "other_content_verified_first": primed}})
 }
 
 func runC05(c *runCtx) error {
